@@ -591,6 +591,9 @@ def m_from(it, args, fr, callee):
         return it.cast(a, 'f64', 'IntToFloat', fr)
     if src is not None and 'U24' in src and dst == 'u64':
         return _u24_to_u64(it, a)
+    if type_head(trait) == 'Into' and dst is not None:
+        # blanket impl<T, U: From<T>> Into<U> for T
+        return it.call('<%s as From<%s>>::from' % (dst, selft), args, fr)
     return NotImplemented
 
 
@@ -2030,3 +2033,37 @@ def m_box_eq(it, args, fr, callee):
 def m_box_deref(it, args, fr, callee):
     b = _deref_arg(args[0])
     return Ref(b.cell, 0)
+
+
+@tmodel('*', 'Default', 'default')
+def m_default(it, args, fr, callee):
+    end = match_close(callee, 0)
+    inner = callee[1:end]
+    k = _top_as(inner)
+    t = it.subst(inner[:k].strip(), fr)
+    if t in INT_W:
+        return Sc(t, 0)
+    if t == 'f64':
+        return Sc('f64', 0)
+    if t == '()':
+        return UNIT
+    h = type_head(t)
+    if h == 'Vec':
+        return VecV([])
+    if h == 'Option':
+        return none()
+    if h in ('HashMap', 'BTreeMap'):
+        return MapV('map')
+    if h in ('HashSet', 'BTreeSet'):
+        return MapV('set')
+    if h == 'SlotMap':
+        return SlotMapV()
+    return NotImplemented
+
+
+@model('half::f16::to_f64', 'f16::to_f64', 'half::binary16::f16::to_f64')
+def m_f16_to_f64(it, args, fr, callee):
+    a = args[0]
+    if type(a) is Sc and a.t == 'f64':
+        return a          # the driver stores HFloat immediates pre-widened (exact) as f64 bits
+    raise Unsupported('f16::to_f64 of %r' % (a,))
